@@ -1,6 +1,8 @@
 SPECIFICATION MCSpec
 CONSTANTS
   LowerBound = FALSE
+  Remember = FALSE
+  MaxStreams = 1
   MaxFrames = 2
   MaxBody = 2
   BodyOct = {0, 4, 5}
